@@ -675,7 +675,7 @@ func (w *World) Exec(op *drv.Op) drv.Res {
 			return errRes(o.err, o.unique)
 		}
 		res.Matched, res.Modified, res.Upserted = o.matched, o.modified, o.upserted
-		if o.upsertedID != nil {
+		if o.upserted == 1 {
 			res.IDs = []interface{}{o.upsertedID}
 		}
 	case drv.ReplaceOne:
@@ -684,7 +684,7 @@ func (w *World) Exec(op *drv.Op) drv.Res {
 			return errRes(o.err, o.unique)
 		}
 		res.Matched, res.Modified, res.Upserted = o.matched, o.modified, o.upserted
-		if o.upsertedID != nil {
+		if o.upserted == 1 {
 			res.IDs = []interface{}{o.upsertedID}
 		}
 	case drv.DeleteOne, drv.DeleteMany:
